@@ -1,0 +1,53 @@
+//go:build verif
+
+// Contracts for govc (/verif): C20 "Round links only move forward and never point at their own chain" -- kernel side
+// (kernel/graph.go). The persist store is seen through the assumed interface contracts of
+// storage/zz_contracts_c20_verif.go (ghost store version + observation functions). Comment-only file.
+
+package kernel
+
+//@ spec SV(chain *Chain) mathint = storage.StoreVer(chain.persistStore)
+//@ -- representation invariant of a booted chain (loadState: State and RoundLinks are allocated there; buildChain sets node and persistStore)
+//@ spec ChainOK(chain *Chain) bool = chain != nil && chain.node != nil && chain.State != nil && chain.State.RoundLinks != nil && chain.persistStore != nil
+//@ -- LinkAt: the value the CODE reads for chain.State.RoundLinks[id] (a missing entry reads 0)
+//@ spec LinkAt(chain *Chain, id crypto.Hash) mathint = has(chain.State.RoundLinks, id) ? chain.State.RoundLinks[id] : 0
+//@ -- the in-memory links mirror the durable links of this chain (loadState reads every RoundLinks entry from the store;
+//@ -- a missing map entry and a missing LINK key both read as 0)
+//@ spec MirrorOK(chain *Chain) bool = forall id crypto.Hash :: {has(chain.State.RoundLinks, id)} LinkAt(chain, id) == storage.SLink(SV(chain), chain.ChainId, id)
+
+//@ func (chain *Chain) updateExternal
+//@   property C20
+//@   requires ChainOK(chain) && final != nil && external != nil
+//@   requires [mirror] LinkAt(chain, external.NodeId) == storage.SLink(SV(chain), final.NodeId, external.NodeId)
+//@   modifies chain.State.RoundLinks[..], chain.node.chains.m[..]
+//@   ensures [other-chain] err == nil ==> final.NodeId != external.NodeId
+//@   ensures [forward] err == nil ==> LinkAt(chain, external.NodeId) == external.Number && external.Number >= old(LinkAt(chain, external.NodeId))
+//@   ensures [others] forall id crypto.Hash :: {has(chain.State.RoundLinks, id)} id != external.NodeId ==> LinkAt(chain, id) == old(LinkAt(chain, id))
+//@   ensures [rejected] err != nil ==> forall id crypto.Hash :: {has(chain.State.RoundLinks, id)} LinkAt(chain, id) == old(LinkAt(chain, id)) && has(chain.State.RoundLinks, id) == old(has(chain.State.RoundLinks, id))
+//@   -- the only reasons for a non-strict rejection are the two link tests (or a failed store read: ghost RF marks that return);
+//@   -- in particular a reference to the round the link already names (equal number) is NOT a back link
+//@   ghost RF = 0
+//@   at "return err" ghost RF = 1
+//@   ensures [reasons] err != nil && !strict && ghostvar(RF) == 0 ==> final.NodeId == external.NodeId || external.Number < old(LinkAt(chain, external.NodeId))
+
+//@ -- a chain object whose state has been loaded (loadState) and that has a head and a final round
+//@ spec ChainBooted(ec *Chain) bool = ec != nil && ec.State != nil && ec.State.CacheRound != nil && ec.State.FinalRound != nil
+
+//@ -- getOrCreateChain takes the chains lock and may build a new Chain (channels, loadState from the store): out of subset.
+//@ -- ASSUMED: it changes only the chains map (and objects it allocates), and the chain of a node whose round is in the
+//@ -- store is known and booted (boot order: LoadAllChainsAndGraphTimestamp runs before any round is referenced).
+//@ func (node *Node) getOrCreateChain
+//@   opaque
+//@   requires node != nil
+//@   modifies node.chains.m[..]
+//@   ensures ChainBooted(result)
+
+//@ func (chain *Chain) checkReferenceSanity
+//@   property C20
+//@   requires chain != nil && chain.node != nil && ChainBooted(ec) && external != nil
+//@   modifies nothing
+
+//@ -- determineBestRound: read-only search for the best external round (RLock on the chains map, a scan of the node list).
+//@ func (chain *Chain) determineBestRound
+//@   opaque
+//@   modifies nothing
